@@ -569,6 +569,10 @@ Definition xml_switch (s : mstate) (t' : topo) : mstate :=
   let s1 := fold_left xml_import_attr (number_from 0 (m_attrs s)) s0 in
   MS t' (refresh_all t' (need_refresh (m_attrs s1))) (m_alloc s1).
 
+(* sentinels for the driver *)
+Definition gp_none : N := MEMATTR_GP_NONE.
+Definition os_none : N := MEMATTR_OS_NONE.
+
 (* ------------------------------------------------------------------ *)
 (* one interpreter for histories *)
 
